@@ -18,6 +18,14 @@ CLAIMED = {
                      "touched on a model file system, resolved component-wise. Bounded (length 5 quick / 7 thorough).",
                 note="Trusted: POSIX path model vf/stubs/pathmodel.py (validated against os.path each run), CrossHair, z3. No symlinks, no Windows semantics.",
                 technique=_E1),
+    "C04": dict(engine="symx", category="other",
+                text="The real srctools.math methods are executed on symbolic reals (sin/cos as symbols with s^2+c^2=1, sqrt/atan2 by their defining "
+                     "equations) and z3 decides each identity for ALL reals: SDK convention, proper rotation, every operand/operator mix, products, "
+                     "Euler round trip incl. the 0.001 gimbal threshold. Over the reals, not IEEE doubles; inverse()==transpose() only partially "
+                     "(first-pivot totality) because z3 answers unknown on the full Gauss-Jordan identity.",
+                note="Trusted: z3 nlsat, vf/symx.py, the transcribed SDK AngleMatrix reference, 'every rotation has Euler angles'. Rounding error, the "
+                     "quantitative gimbal tolerance and the Cython/C++ twins are outside.",
+                technique="symbolic execution of the real code on z3 Real terms (operator overloading + DFS over branches); validity queries in QF_NRA; models replayed with floats"),
 }
 _TODO = "check not built yet in this round (planned: see DESIGN.md section 3)"
 NOT_APPLICABLE = {f"C{i:02d}": _TODO for i in range(1, 21) if f"C{i:02d}" not in CLAIMED}
